@@ -5,7 +5,7 @@ from props import _hist
 RULE = ("case = one injector lifetime of the history workload; observation points before and after every API call (each install, the "
         "drop / unwind); offline checker over the interposed __clear_cache log (with a copy of the range taken at call time): every byte "
         "of a watched target range that differs between the two observation points, and every non-zero byte of a trampoline page created "
-        "by the call, must lie inside a range flushed during the call, and the copy taken at the LAST covering flush must already hold "
+        "by the call, and every byte of a trampoline the library already held that changes during the call (re-use in place), must lie inside a range flushed during the call, and the copy taken at the LAST covering flush must already hold "
         "the byte's final value. distinct = distinct (set of kinds, max repetition, exit path, number of target families) classes")
 ASSUME = ["decides the platform-independent code path as compiled for Linux x86-64, where __clear_cache is a no-op: what is checked is that the flush was requested, for the right range, at the right time",
           "a byte whose patched value happens to equal its previous value is not seen as changed; diversity of targets (random filler, different displacements) covers every patch position"]
